@@ -43,6 +43,10 @@ import (
 
 const c10SRG = "srg1"
 const c10GateSRG = "srg0"
+const c10SRG2 = "srg2" // second redundancy group of the two-group cases (first op token G2:...)
+
+// configuration of the second group: priority, preempt, decrement, #interfaces (sw_if_index 100+k) per node
+type c10G2 struct{ prio, pre, dec, nifs [2]int }
 
 // parking place inside Publish
 type c10Gate struct {
@@ -57,9 +61,10 @@ func (c10Sub) Unsubscribe() {}
 
 // synchronous event bus that records the published HA state changes
 type c10Bus struct {
-	who  string
-	sink *[]string
-	gate *c10Gate
+	who   string
+	sink  *[]string
+	sink2 *[]string // transitions of srg2
+	gate  *c10Gate
 }
 
 func (b *c10Bus) Publish(topic string, ev events.Event) {
@@ -73,6 +78,9 @@ func (b *c10Bus) Publish(topic string, ev events.Event) {
 	}
 	if d.SRGName == c10SRG {
 		*b.sink = append(*b.sink, b.who+":"+c10St(d.OldState)+">"+c10St(d.NewState))
+	}
+	if d.SRGName == c10SRG2 {
+		*b.sink2 = append(*b.sink2, b.who+":"+c10St(d.OldState)+">"+c10St(d.NewState))
 	}
 	g := b.gate
 	hit := false
@@ -216,6 +224,11 @@ func c10ID(tok string) (string, bool) {
 }
 
 func c10NewNode(who string, id string, prio int, preempt bool, dec, nifs int, sink *[]string, twoSRG bool) (*c10Node, error) {
+	var sink2 []string
+	return c10NewNode2(who, 0, id, prio, preempt, dec, nifs, sink, &sink2, twoSRG, nil)
+}
+
+func c10NewNode2(who string, wi int, id string, prio int, preempt bool, dec, nifs int, sink, sink2 *[]string, twoSRG bool, g2 *c10G2) (*c10Node, error) {
 	ifs := []string{}
 	for k := 0; k < nifs; k++ {
 		ifs = append(ifs, fmt.Sprintf("if%d", k))
@@ -237,8 +250,17 @@ func c10NewNode(who string, id string, prio int, preempt bool, dec, nifs int, si
 	if twoSRG {
 		cfg.SRGs[c10GateSRG] = &config.SRGConfig{VirtualMAC: "02:ab:cd:00:00:02", Priority: 100, SubscriberGroups: []string{"gate"}}
 	}
+	if g2 != nil {
+		ifs2 := []string{}
+		for k := 0; k < g2.nifs[wi]; k++ {
+			ifs2 = append(ifs2, fmt.Sprintf("if%d", 100+k))
+		}
+		cfg.SRGs[c10SRG2] = &config.SRGConfig{VirtualMAC: "02:ab:cd:00:00:03", Priority: uint32(g2.prio[wi]),
+			Preempt: g2.pre[wi] == 1, SubscriberGroups: []string{"second"}, Interfaces: ifs2,
+			TrackPriorityDecrement: uint32(g2.dec[wi])}
+	}
 	gate := &c10Gate{parked: make(chan struct{}), release: make(chan struct{})}
-	m, err := NewManager(cfg, &c10Bus{who: who, sink: sink, gate: gate},
+	m, err := NewManager(cfg, &c10Bus{who: who, sink: sink, sink2: sink2, gate: gate},
 		WithInterfaceResolver(func(name string) (uint32, error) {
 			var k uint32
 			if _, err := fmt.Sscanf(name, "if%d", &k); err != nil {
@@ -260,8 +282,10 @@ func c10NewNode(who string, id string, prio int, preempt bool, dec, nifs int, si
 	return n, nil
 }
 
-func (n *c10Node) show() string {
-	sm := n.m.srgs[c10SRG]
+func (n *c10Node) show() string { return n.showSRG(c10SRG) }
+
+func (n *c10Node) showSRG(name string) string {
+	sm := n.m.srgs[name]
 	pk := "0"
 	n.m.mu.RLock()
 	if n.m.peerNodeID != "" {
@@ -272,14 +296,25 @@ func (n *c10Node) show() string {
 	if sm.IsActive() {
 		act = "1"
 	}
-	if n.m.IsActive(c10SRG) != sm.IsActive() {
+	if n.m.IsActive(name) != sm.IsActive() {
 		act = "X"
 	}
 	sm.mu.RLock()
 	pp, ps := sm.peerPriority, sm.peerState
 	sm.mu.RUnlock()
 	return fmt.Sprintf("%s,%d,%d,%s,%s,%d,%s", c10St(string(sm.State())), sm.Priority(), pp, c10St(string(ps)), pk,
-		n.m.GetInterfaceDownCounts()[c10SRG], act)
+		n.m.GetInterfaceDownCounts()[name], act)
+}
+
+// heartbeat carrying only the status of one group
+func c10Only(m *hapb.HeartbeatMessage, name string) *hapb.HeartbeatMessage {
+	r := &hapb.HeartbeatMessage{NodeId: m.NodeId, TimestampNs: m.TimestampNs, Sequence: m.Sequence}
+	for _, s := range m.SrgStatuses {
+		if s.SrgName == name {
+			r.SrgStatuses = append(r.SrgStatuses, s)
+		}
+	}
+	return r
 }
 
 func c10Arg(tok string) int {
@@ -364,13 +399,39 @@ func c10RunCaseOnce(f []string) (res string) {
 			twoSRG = true
 		}
 	}
-	var sink []string
-	a, err := c10NewNode("a", ida, iv[1], iv[2] == 1, iv[3], iv[4], &sink, twoSRG)
+	var g2 *c10G2
+	ops := f[10:]
+	if len(ops) > 0 && strings.HasPrefix(ops[0], "G2:") {
+		p := strings.Split(ops[0][3:], ",")
+		if len(p) != 8 || twoSRG {
+			return "badcase"
+		}
+		g2 = &c10G2{}
+		for i := 0; i < 8; i++ {
+			v, err := strconv.Atoi(p[i])
+			if err != nil {
+				return "badcase"
+			}
+			switch i % 4 {
+			case 0:
+				g2.prio[i/4] = v
+			case 1:
+				g2.pre[i/4] = v
+			case 2:
+				g2.dec[i/4] = v
+			case 3:
+				g2.nifs[i/4] = v
+			}
+		}
+		ops = ops[1:]
+	}
+	var sink, sink2 []string
+	a, err := c10NewNode2("a", 0, ida, iv[1], iv[2] == 1, iv[3], iv[4], &sink, &sink2, twoSRG, g2)
 	if err != nil {
 		return "badcfg"
 	}
 	defer a.m.StopContext()
-	b, err := c10NewNode("b", idb, iv[6], iv[7] == 1, iv[8], iv[9], &sink, twoSRG)
+	b, err := c10NewNode2("b", 1, idb, iv[6], iv[7] == 1, iv[8], iv[9], &sink, &sink2, twoSRG, g2)
 	if err != nil {
 		return "badcfg"
 	}
@@ -385,17 +446,42 @@ func c10RunCaseOnce(f []string) (res string) {
 		if len(sink) > 0 {
 			t = strings.Join(sink, ";")
 		}
-		out = append(out, a.show()+"|"+b.show()+"|"+t)
+		line := a.show() + "|" + b.show() + "|" + t
+		if g2 != nil {
+			t2 := "-"
+			if len(sink2) > 0 {
+				t2 = strings.Join(sink2, ";")
+			}
+			line += "#" + a.showSRG(c10SRG2) + "|" + b.showSRG(c10SRG2) + "|" + t2
+			sink2 = sink2[:0]
+		}
+		out = append(out, line)
 		sink = sink[:0]
 	}
+	both := []string{c10SRG}
+	if g2 != nil {
+		both = []string{c10SRG, c10SRG2}
+	}
 	emit()
-	for _, tok := range f[10:] {
+	for _, tok := range ops {
 		if len(tok) < 3 || (tok[2] != '0' && tok[2] != '1') {
 			return "badcase bad_op_" + tok
 		}
 		w := int(tok[2] - '0')
 		n, o := nodes[w], nodes[1-w]
-		switch tok[:2] {
+		op := tok[:2]
+		only := ""
+		if g2 != nil {
+			switch op {
+			case "d1":
+				op, only = "dl", c10SRG
+			case "d2":
+				op, only = "dl", c10SRG2
+			case "pD", "pL", "pS", "rl":
+				return "badcase overlap_ops_not_supported_with_two_groups"
+			}
+		}
+		switch op {
 		case "st":
 			// Manager.Start: for _, sm := range m.srgs { if t := sm.Start(); t != nil { m.publishTransition(t) } }
 			for _, sm := range n.m.srgs {
@@ -417,6 +503,9 @@ func c10RunCaseOnce(f []string) (res string) {
 			i := c10Arg(tok) % len(n.inbox)
 			msg := n.inbox[i]
 			n.inbox = append(append([]c10Msg{}, n.inbox[:i]...), n.inbox[i+1:]...)
+			if only != "" {
+				msg.m = c10Only(msg.m, only)
+			}
 			if msg.req {
 				ss := &c10ServerStream{in: msg.m}
 				if err := n.srv.Heartbeat(ss); err != nil {
@@ -452,7 +541,7 @@ func c10RunCaseOnce(f []string) (res string) {
 		case "dn", "up", "de":
 			k := c10Arg(tok)
 			ev := events.InterfaceStateEvent{SwIfIndex: uint32(k), Name: fmt.Sprintf("if%d", k), AdminUp: true}
-			switch tok[:2] {
+			switch op {
 			case "up":
 				ev.LinkUp = true
 			case "de":
@@ -462,14 +551,23 @@ func c10RunCaseOnce(f []string) (res string) {
 			n.m.handleInterfaceEvent(events.Event{Data: ev})
 		case "sw":
 			n.client.up = false
-			_ = n.m.RequestSwitchover(ctx, []string{c10SRG}, c10Arg(tok) == 1)
+			_ = n.m.RequestSwitchover(ctx, both, c10Arg(tok) == 1)
 		case "SW":
 			n.client.up = true
-			if err := n.m.RequestSwitchover(ctx, []string{c10SRG}, c10Arg(tok) == 1); err != nil {
+			if err := n.m.RequestSwitchover(ctx, both, c10Arg(tok) == 1); err != nil {
+				return "badcase switchover_error"
+			}
+		case "S1", "S2":
+			n.client.up = true
+			name := c10SRG
+			if op == "S2" {
+				name = c10SRG2
+			}
+			if err := n.m.RequestSwitchover(ctx, []string{name}, c10Arg(tok) == 1); err != nil {
 				return "badcase switchover_error"
 			}
 		case "rs":
-			resp, err := n.srv.RequestSwitchover(ctx, &hapb.SwitchoverRequest{SrgNames: []string{c10SRG}, Graceful: true})
+			resp, err := n.srv.RequestSwitchover(ctx, &hapb.SwitchoverRequest{SrgNames: both, Graceful: true})
 			if err != nil || !resp.Success {
 				return "badcase remote_switchover_error"
 			}
